@@ -65,6 +65,9 @@ pub struct Sched {
     pub psites: Vec<(&'static str, u32)>,
     pub quantum: u64,
     pub pending_stall: u64,
+    /// timer-arm stall faults: (index of the arm event, virtual ms), see `ARM`
+    pub arm_stalls: Vec<(u8, u8)>,
+    pub arms: u64,
     pub last_tick_thread: usize,
     pub consec: u64,
     pub deadline_waiters: usize,
@@ -207,10 +210,19 @@ impl Sched {
 
     /// choose the next thread to run among runnable ones, advancing virtual time if needed
     fn pick_next(&mut self) -> usize {
+        self.pick(true)
+    }
+
+    /// the next runnable thread in round-robin order, without consuming a schedule segment
+    fn pick_next_fair(&mut self) -> usize {
+        self.pick(false)
+    }
+
+    fn pick(&mut self, use_seg: bool) -> usize {
         loop {
             let r = self.runnable();
             if !r.is_empty() {
-                if self.exploring && self.seg_idx < self.schedule.len() {
+                if use_seg && self.exploring && self.seg_idx < self.schedule.len() {
                     let seg = self.schedule[self.seg_idx];
                     self.seg_idx += 1;
                     self.run_left = seg.run as u64;
@@ -483,10 +495,51 @@ pub fn now_tick() -> (u64, u64) {
     lock().as_ref().map(|s| (s.clock, s.tick_total)).unwrap_or((0, 0))
 }
 
-pub fn event(_kind: u32) {
+pub fn event(kind: u32) {
+    if kind == 2 {
+        return timer_armed();
+    }
     if let Some(s) = lock().as_mut() {
         s.useful += 1;
     }
+}
+
+/// the calling thread has just armed a timer: inject the stall fault generated for it, if any
+fn timer_armed() {
+    let me = tid();
+    if me == usize::MAX {
+        return;
+    }
+    let mut g = lock();
+    let s = match g.as_mut() {
+        Some(s) => s,
+        None => return,
+    };
+    if !s.exploring || s.cur != me {
+        return;
+    }
+    let k = s.arms;
+    s.arms += 1;
+    let ms = match s.arm_stalls.iter().find(|a| a.0 as u64 == k) {
+        Some(a) => a.1 as u64,
+        None => return,
+    };
+    if s.th[me].np > 0 {
+        return;
+    }
+    if TRACE.load(Ordering::Relaxed) {
+        eprintln!("T{me} stalled for {ms} ms after arming timer {k} clock={}", s.clock - T0);
+    }
+    let d = s.clock + ms * 1_000_000;
+    s.th[me].st = St::Blocked { key: STALL_KEY, deadline: Some(d), bg: false };
+    s.stalls += 1;
+    s.consec = 0;
+    // keep the current segment for whoever runs next
+    let (run_left, pending) = (s.run_left, s.pending_stall);
+    let next = s.pick_next_fair();
+    s.run_left = run_left;
+    s.pending_stall = pending;
+    switch_to(g, me, next, true);
 }
 
 pub fn spawn_token(name: &'static str) -> usize {
@@ -670,6 +723,8 @@ pub fn init(max_steps: u64) {
         psites: vec![],
         quantum: 40,
         pending_stall: 0,
+        arm_stalls: vec![],
+        arms: 0,
         last_tick_thread: usize::MAX,
         consec: 0,
         deadline_waiters: 0,
@@ -682,9 +737,17 @@ pub fn init(max_steps: u64) {
     may::verif::install(&HOOKS);
 }
 
+/// a segment with this `run` value is not a segment but a timer-arm stall fault: the thread
+/// that arms the `pick`-th timer of the case (sleep, park time-out, io time-out ...) is
+/// descheduled for `stall_ms` virtual ms right after arming it
+pub const ARM: u16 = u16::MAX;
+
 pub fn start_exploring(schedule: Vec<Seg>) {
     let mut g = lock();
     let s = g.as_mut().unwrap();
+    s.arm_stalls = schedule.iter().filter(|x| x.run == ARM && x.stall_ms > 0).map(|x| (x.pick, x.stall_ms)).collect();
+    s.arms = 0;
+    let schedule: Vec<Seg> = schedule.into_iter().filter(|x| x.run != ARM).collect();
     s.schedule = schedule;
     s.seg_idx = 0;
     s.run_left = 0;
